@@ -129,6 +129,11 @@ CANARIES = [
     ('c11-alias-tables-too', 'C11', 'mindsdb_sql/planner/query_planner.py', "            if not is_table:\n                # add table name or alias for identifiers", "            if True:\n                # add table name or alias for identifiers", 'C11.edit.ident.table1'),
     ('c11-alias-in-joins', 'C11', 'mindsdb_sql/planner/query_planner.py', "                if isinstance(table, Join):\n                    # skip for join\n                    return\n", "", 'C11.edit.ident'),
     ('c11-no-rewrite', 'C11', 'mindsdb_sql/planner/query_planner.py', "                self.prepare_integration_select(int_name, query)\n\n                last_step = self.plan.add_step(FetchDataframeStep(integration=int_name, query=query))", "                last_step = self.plan.add_step(FetchDataframeStep(integration=int_name, query=query))", 'C11.shape.one-sql-integration'),
+    ('c06-left-as-inner', 'C06', 'mindsdb_sql/render/sqlalchemy_render.py', "                        if join_type == 'LEFT JOIN':\n                            method = 'outerjoin'", "                        if join_type == 'LEFT  JOIN':\n                            method = 'outerjoin'", 'C06.join.LEFT_JOIN'),
+    ('c06-desc-dropped', 'C06', 'mindsdb_sql/render/sqlalchemy_render.py', "                if f.direction.upper() == 'DESC':\n                    col0 = col0.desc()\n                elif", "                if f.direction.upper() == 'DESCENDING':\n                    col0 = col0.desc()\n                elif", 'C06.order.select.DESC'),
+    ('c06-union-all-swapped', 'C06', 'mindsdb_sql/render/sqlalchemy_render.py', "            func = sa.union if from_table.unique else sa.union_all", "            func = sa.union_all if from_table.unique else sa.union", 'C06.setop.UNION'),
+    ('c06-operator-table', 'C06', 'mindsdb_sql/render/sqlalchemy_render.py', '                ">=": "__ge__",\n                "<=": "__le__",', '                ">=": "__gt__",\n                "<=": "__le__",', 'C06.op.GEQ'),
+    ('c06-nulls-swapped', 'C06', 'mindsdb_sql/render/sqlalchemy_render.py', "                if f.nulls.upper() == 'NULLS FIRST':\n                    col0 = sa.nullsfirst(col0)", "                if f.nulls.upper() == 'NULLS FIRST':\n                    col0 = sa.nullslast(col0)", 'C06.order.select'),
 ]
 
 
